@@ -47,6 +47,9 @@ def plan(tier, seed):
     shards.append(("callers",))
     for c in range(4):
         shards.append(("scanpairs", c, 4, tier))
+    for c in range(4):
+        shards.append(("scanpairs5", c, 4, tier))
+    shards.append(("threads",))
     if tier == "quick":
         # a slice of the 2x3 pair space as well (every 64th first frame)
         for c in range(16):
@@ -523,6 +526,114 @@ def _run_scanpairs(desc):
     return sh
 
 
+SCAN5_MASKS = [0x000, 0x0F0, 0x333, 0xA5A]
+
+
+def _run_scanpairs5(desc):
+    """pairrow on scans of FIVE frames, every 5-tuple over {empty, three masks}: empty frames at the start, in the middle, at the end,
+    several in a row; stored order is not the omega order; each consecutive non-empty pair in omega order is listed once, under the
+    frame numbers it belongs to, with exactly the shared pixels"""
+    _, c, nch, tier = desc
+    import shutil
+    from ImageD11 import sparseframe as sf
+    from ImageD11.sinograms import properties as PR
+    sh = Shard()
+    wd = os.path.join(os.path.dirname(os.path.dirname(os.path.dirname(os.path.abspath(__file__)))), ".work", "c14_s5_%d" % os.getpid())
+    os.makedirs(wd, exist_ok=True)
+    masks = [np.array([(x >> k) & 1 for k in range(12)], bool).reshape(3, 4) for x in SCAN5_MASKS]
+    omega = np.array([20.0, 10.0, 30.0, 50.0, 40.0])
+    order = [1, 0, 2, 4, 3]
+    try:
+        idx = 0
+        case = None
+        for tup in itertools.product(range(len(masks)), repeat=5):
+            idx += 1
+            if idx % nch != c:
+                continue
+            fn = os.path.join(wd, "a.h5")
+            _write_scan(fn, [masks[t] for t in tup], omega)
+            s1 = sf.SparseScan(fn, "1.1")
+            s1.cplabel(threshold=0, countall=False)
+            case = {"kind": "scanpairs5", "frames": [SCAN5_MASKS[t] for t in tup], "omega": omega.tolist()}
+            pairs = PR.pairrow(s1, 7)
+            want = {}
+            for a, b in zip(order[:-1], order[1:]):
+                if s1.nnz[a] and s1.nnz[b]:
+                    fa = (s1.row[s1.ipt[a]:s1.ipt[a + 1]], s1.col[s1.ipt[a]:s1.ipt[a + 1]], s1.labels[s1.ipt[a]:s1.ipt[a + 1]])
+                    fb = (s1.row[s1.ipt[b]:s1.ipt[b + 1]], s1.col[s1.ipt[b]:s1.ipt[b + 1]], s1.labels[s1.ipt[b]:s1.ipt[b + 1]])
+                    want[(7, a, 7, b)] = oracle_overlap(fa, fb)
+
+            def same(ans, w):
+                ne, rcl = ans
+                got = {} if rcl is None else {(int(a_), int(b_)): int(n_) for a_, b_, n_ in rcl}
+                return ne == len(w) and got == w and (rcl is None or len(rcl) == len(got))
+            if set(pairs) != set(want):
+                sh.violation("pairrow:wrong-set-of-frame-pairs", case, {"got": sorted(map(list, pairs)), "expected": sorted(map(list, want))})
+            elif any(not same(pairs[k], want[k]) for k in want):
+                k = [k for k in want if not same(pairs[k], want[k])][0]
+                sh.violation("pairrow:overlaps-wrong", dict(case, pair=list(k)), {"got": pairs[k], "expected": sorted(want[k].items())})
+            sh.evaluations += 1
+            if 0 in tup and len(want) >= 2:
+                sh.nontrivial += 1
+            sh.outcomes.add(("scanpairs5", len(want)))
+        if case:
+            sh.sample(case, limit=1)
+    finally:
+        shutil.rmtree(wd, ignore_errors=True)
+    return sh
+
+
+def _run_threads(desc):
+    """two python threads turn two different images of the same shape and type into sparse frames at the same time (one worker per
+    frame of a scan; the compiled kernels release the GIL): every schedule with one preemption at a statement of the sparseframe module
+    is executed (engine E7); each caller must receive exactly the selected pixels of ITS image"""
+    from ImageD11 import sparseframe as sf, cImageD11 as cI
+    from vt import pysched
+    sh = Shard()
+    modfile = sf.__file__
+    shp = (4, 5)
+    k = np.arange(20).reshape(shp)
+    imgs = {"u16": [((k * 7 + 3) % 23).astype(np.uint16), ((k * 11 + 5) % 19).astype(np.uint16)],
+            "f32": [((k * 5 + 1) % 17).astype(np.float32), ((k * 3 + 2) % 13).astype(np.float32) + 0.5]}
+    cut = 9
+    for mode in ("from_data_cut:u16", "from_data_cut:f32", "from_data_mask", "from_data_cut+from_data_mask"):
+        dt = "f32" if mode.endswith("f32") else "u16"
+        A, B = imgs[dt]
+
+        def conv(img, how):
+            if how == "cut":
+                return sf.from_data_cut(img, cut)
+            return sf.from_data_mask(img > cut, img, {})
+
+        hows = {"from_data_mask": ("mask", "mask"), "from_data_cut+from_data_mask": ("cut", "mask")}.get(mode, ("cut", "cut"))
+
+        def make():
+            return [lambda: conv(A, hows[0]), lambda: conv(B, hows[1])]
+        nexec = 0
+        for sw, res, err in pysched.explore(make, lambda fr: fr.f_code.co_filename == modfile, bound=1, max_exec=4000):
+            nexec += 1
+            case = {"kind": "threads", "mode": mode, "switch_at_points": list(sw)}
+            for t, img in enumerate((A, B)):
+                if err[t] is not None:
+                    sh.violation("sparse-conversion:concurrent-call-raises", dict(case, thread=t), {"error": repr(err[t])[:200]})
+                    break
+                spf = res[t]
+                n0 = len(sh.violations)
+                _check_frame(sh, "sparse-conversion-in-two-threads[%s]" % mode, dict(case, thread=t), spf, img > cut, img, cI)
+                if len(sh.violations) > n0:
+                    break
+            sh.states += 1
+            sh.traces_validated += 1
+            if sh.violations:
+                break
+        sh.count("thread_schedules_executed", nexec)
+        sh.evaluations += 1
+        sh.nontrivial += 1
+        sh.outcomes.add(("threads", mode))
+    sh.sample({"kind": "threads", "schedules": nexec}, limit=1)
+    return sh
+
+
 def _run_callers(desc):
     """the kernels of this property that are declared threadsafe (the GIL is released while they run) as TWO CONCURRENT CALLERS on the
     schedule-exploring runtime: pairs of different well-formed calls from the C20 call tables, every interleaving at the words both
@@ -553,6 +664,10 @@ def run_shard(desc):
         return _run_callers(desc)
     if desc[0] == "scanpairs":
         return _run_scanpairs(desc)
+    if desc[0] == "scanpairs5":
+        return _run_scanpairs5(desc)
+    if desc[0] == "threads":
+        return _run_threads(desc)
     if desc[0] == "sched":
         return _run_sched(desc)
     if desc[0] == "overlap_realloc":
@@ -569,7 +684,13 @@ def replay(case):
         v = [x for x in r.violations if x["case"]["calls"] == case["calls"]]
         return (not v), {"violations": v[:2]}
     sh = Shard()
-    if case["kind"] == "scanpairs":
+    if case["kind"] == "scanpairs5":
+        r = _run_scanpairs5(("scanpairs5", 0, 1, "thorough"))
+        sh.violations = [v for v in r.violations if v["case"]["frames"] == case["frames"]]
+    elif case["kind"] == "threads":
+        r = _run_threads(("threads",))
+        sh.violations = [v for v in r.violations if v["case"]["mode"] == case["mode"]]
+    elif case["kind"] == "scanpairs":
         r = _run_scanpairs(("scanpairs", 0, 1, "thorough"))
         sh.violations = [v for v in r.violations if v["case"]["frames"] == case["frames"]]
     elif case["kind"] == "overlap_realloc":
